@@ -75,11 +75,16 @@ theorem sliceArray_bounded {size : Nat} {lo hi : Int} {sz : Nat} (h : sliceArray
     sz ≤ size := by
   unfold sliceArray at h
   simp only at h
-  have hF0 : 0 ≤ (if toInt32 lo < 0 then 0 else toInt32 lo) := by split <;> omega
-  have hT : (if toInt32 hi ≥ (size : Int) then (size : Int) - 1 else toInt32 hi) ≤ (size : Int) - 1 := by
-    split <;> omega
-  generalize (if toInt32 lo < 0 then 0 else toInt32 lo) = F at h hF0
-  generalize (if toInt32 hi ≥ (size : Int) then (size : Int) - 1 else toInt32 hi) = T at h hT
+  generalize hF1 : (if lo < 0 then 0 else lo) = F1 at h
+  generalize hT1 : (if hi ≥ (size : Int) then (size : Int) - 1 else hi) = T1 at h
+  generalize hT2 : (if T1 < -1 then -1 else T1) = T at h
+  generalize hF2 : (if F1 > (size : Int) then (size : Int) else F1) = F at h
+  have hF0 : 0 ≤ F := by
+    subst hF2 hF1
+    split <;> split <;> omega
+  have hT : T ≤ (size : Int) - 1 := by
+    subst hT2 hT1
+    split <;> split <;> omega
   split at h
   · injection h with h; omega
   · injection h with h
